@@ -87,6 +87,26 @@ func (r *pkgRun) writeTemp(name string, data []byte) (string, bool) {
 	return p, true
 }
 
+// templateBits gives the document placeholder content in body, table, header and footer.
+func (r *pkgRun) templateBits() bool {
+	d := r.doc
+	d.AddParagraph("Title: {{v}} / {{w}}")
+	d.AddParagraph("{{#if c}}yes {{v}}{{else}}no{{/if}}")
+	d.AddParagraph("{{#image pic}}")
+	t, err := d.AddTable(&document.TableConfig{Rows: 2, Cols: 2, Width: 4000, Data: [][]string{{"n", "{{v}}"}, {"{{#each items}}{{name}}", "{{val}}{{/each}}"}}})
+	if err != nil {
+		return false
+	}
+	r.table = t
+	if err := d.AddHeader(document.HeaderFooterTypeDefault, "H {{v}} {{#if c}}c{{/if}}"); err != nil {
+		return false
+	}
+	if err := d.AddFooterWithPageNumber(document.HeaderFooterTypeDefault, "F {{w}}", true); err != nil {
+		return false
+	}
+	return true
+}
+
 func (r *pkgRun) step(op Op, i int) (ret string, written []byte, entry string) {
 	d := r.doc
 	tc := op.Str("tc")
@@ -388,21 +408,14 @@ func (r *pkgRun) step(op Op, i int) (ret string, written []byte, entry string) {
 		}
 	// ------------------------------------------------------------------ document templates
 	case "AddTemplateBits": // content with placeholders for Render to fill
-		d.AddParagraph("Title: {{v}} / {{w}}")
-		d.AddParagraph("{{#if c}}yes {{v}}{{else}}no{{/if}}")
-		d.AddParagraph("{{#image pic}}")
-		t, err := d.AddTable(&document.TableConfig{Rows: 2, Cols: 2, Width: 4000, Data: [][]string{{"n", "{{v}}"}, {"{{#each items}}{{name}}", "{{val}}{{/each}}"}}})
-		if err != nil {
-			return "err", nil, ""
-		}
-		r.table = t
-		if err := d.AddHeader(document.HeaderFooterTypeDefault, "H {{v}} {{#if c}}c{{/if}}"); err != nil {
-			return "err", nil, ""
-		}
-		if err := d.AddFooterWithPageNumber(document.HeaderFooterTypeDefault, "F {{w}}", true); err != nil {
+		if !r.templateBits() {
 			return "err", nil, ""
 		}
 	case "Render":
+		if op.Bool("prep") && !r.templateBits() {
+			return "err", nil, ""
+		}
+		d = r.doc
 		eng := document.NewTemplateEngine()
 		if _, err := eng.LoadTemplateFromDocument("t", d); err != nil {
 			return "err", nil, ""
